@@ -10,6 +10,7 @@ OUT="${SEEDREGRESS_OUT:-/tmp/seedregress}"; mkdir -p "$OUT"; : > "$OUT/summary.t
 export GOFLAGS=-mod=mod GOPROXY=off GOSUMDB=off GOTOOLCHAIN=local
 for d in "$V"/seeded/$PAT/; do
   id=$(basename "$d"); case "$id" in *rejected*) continue;; esac
+  grep -q '"status": "obsolete' "$d/meta.json" 2>/dev/null && { echo "$id: obsolete (skipped)" | tee -a "$OUT/summary.txt"; continue; }
   prop=$(python3 -c "import json;print(json.load(open('$d/meta.json'))['property'])")
   WT=/tmp/wt/reg-$id; git -C /repo worktree remove --force "$WT" >/dev/null 2>&1
   git -C /repo worktree add --detach "$WT" HEAD -q || { echo "$id: cannot create worktree" | tee -a "$OUT/summary.txt"; continue; }
